@@ -34,9 +34,43 @@ def mres(o, ref):
     return f"(mkM {code(o['call'])} {code(o['compute'])} {'true' if (succeeded and same_result(o, ref)) else 'false'})"
 
 
+def choose_method_search(run):
+    """when the theorems over the _choose_method table no longer check: exhibit the offending decision (python mirror of
+    ChooseLaw.row_ok evaluated on the real function)"""
+    import numpy as np
+
+    import flox.core as fc
+    from flox.aggregations import _initialize_aggregation
+
+    for name in ["sum", "nanmean", "argmax", "nanargmin", "median", "nanquantile", "first"]:
+        agg = _initialize_aggregation(name, None, np.dtype("float64"), None, 0, {"q": 0.5} if "quantile" in name else {})
+        is_arg, bw_only = bool(fc._is_arg_reduction(agg)), agg.chunk == (None,)
+        for method in (None, "map-reduce", "cohorts", "blockwise"):
+            for pref in ("map-reduce", "cohorts", "blockwise"):
+                for nax, ndim in ((1, 1), (1, 2), (2, 2)):
+                    try:
+                        out = fc._choose_method(method, pref, agg, np.zeros((2,) * ndim, dtype=int), nax)
+                    except Exception as e:  # noqa: BLE001
+                        out = "raise:" + type(e).__name__
+                    if method is not None:
+                        ok = out == method
+                    elif bw_only:
+                        ok = (out == "blockwise" and pref == "blockwise") or (out == "raise:ValueError" and pref != "blockwise")
+                    else:
+                        ok = (out in ("map-reduce", "cohorts", "blockwise") and (nax == ndim or out == "map-reduce")
+                              and not (is_arg and out == "blockwise")
+                              and (nax != ndim or out == pref or (is_arg and pref == "blockwise" and out == "cohorts")))
+                    if not ok:
+                        run.violation({"property": "C19", "kind": "_choose_method breaks the rules that make the automatic choice safe",
+                                       "aggregation": name, "requested_method": method, "preferred_method": pref, "nax": nax, "by_ndim": ndim,
+                                       "returned": out, "how_to_run": "flox.core._choose_method(method, preferred, agg, by, nax)"}, tag="choose")
+                        return
+
+
 def run(run: C.Run):
     rng = random.Random(run.seed)
-    P.front(run, translators=())
+    if not P.front(run, translators=("tables",)):
+        choose_method_search(run)
     thorough = run.tier == "thorough"
     if thorough:
         cells = list(GD.all_cells())
@@ -122,7 +156,7 @@ def run(run: C.Run):
 
 def replay(run: C.Run, path):
     rp = json.load(open(path))
-    P.front(run, translators=())
+    P.front(run, translators=("tables",))
     cell = rp.get("cell")
     if cell:
         for m in GD.METHODS:
